@@ -48,7 +48,7 @@ def generated_pairs(work, stats):
     rets, args = [], []
     for i, c in enumerate(sorted(cases, key=lambda c: json.dumps(c, sort_keys=True))):
         ms = sorted(c["ms"])
-        tag = "%s_%s" % (c["wrap"], "".join(m[:2].lower() for m in ms))
+        tag = "%s_%s%s" % (c["wrap"], "".join(m[:2].lower() for m in ms), c.get("arr", "")[:2].lower())
         bar = "|".join(ms)
         if c["pos"] == "ret":
             if c["wrap"] == "plain":
@@ -59,6 +59,9 @@ def generated_pairs(work, stats):
                     pairs.append((ms + ["NilClass"], "Optional" + ms[0]))
             elif c["wrap"] == "arr":
                 pairs = [([ms[0] + "Array"], "[%s]" % ms[0])]
+            elif c["wrap"] == "uarr":
+                a = c["arr"]
+                pairs = [([a + "Array"] + ms, "[%s]|%s" % (a, bar)), ([a + "Array"] + ms, ["[%s]" % a] + ms)]
             else:
                 continue
             for k, (lng, cmp_) in enumerate(pairs):
@@ -77,6 +80,10 @@ def generated_pairs(work, stats):
                 pairs = [({"type": ms, "is_asterisk": True}, {"type": "*" + ms[0]})]
             elif c["wrap"] == "arr":
                 pairs = [({"type": [ms[0] + "Array"]}, {"type": "[%s]" % ms[0]})]
+            elif c["wrap"] == "uarr":
+                a = c["arr"]
+                pairs = [({"type": [a + "Array"] + ms}, {"type": "[%s]|%s" % (a, bar)}),
+                         ({"type": [a + "Array"] + ms}, {"type": ["[%s]" % a] + ms})]
             else:
                 continue
             for k, (lng, cmp_) in enumerate(pairs):
